@@ -221,6 +221,10 @@ RxAllowedFor(cfg, allocFail, verdict0, vaddr, dataIn, wireIn) ==
             ELSE IF Len(o) < 12
             THEN \* shorter than any header: there is no sequence number or address to echo - bad header encoding, as without the failure
                  {RxObs(cfg.tr, 0, id, 0, <<>>, <<MetaMessage(cfg.tr, M_HEADERENC)>>) : id \in {16, C_ENC}}
+            ELSE IF Classes(o) \cap {C_ENC, C_HDCRC} # {}
+            THEN \* a damaged header is a damaged header also when memory is short: its sequence number and address are not echoed
+                 {RxObs(cfg.tr, 0, id, 0, <<>>, <<MetaMessage(cfg.tr, IF c = C_ENC THEN M_HEADERENC ELSE M_HEADERCRC)>>)
+                    : id \in {16, C_ENC, C_HDCRC}, c \in Classes(o) \cap {C_ENC, C_HDCRC}}
             ELSE {<<-9>>}
        ELSE IF Len(o) > cfg.cap
        THEN IF cfg.cap >= 16 /\ Len(o) >= 16 /\ Classes(o) \cap {C_ENC, C_HDCRC} = {} /\ IsRequest(o)
@@ -228,6 +232,9 @@ RxAllowedFor(cfg, allocFail, verdict0, vaddr, dataIn, wireIn) ==
                     : code \in {ERXOVERFLOW}}
                  \cup {RxObs(cfg.tr, 0, 12, 1, <<>>, <<FrameOctets(RespType(Fields(o).type), Opts(cfg.tr, FALSE, FALSE), ERXOVERFLOW,
                                                             Fields(o).sq, Fields(o).addr, <<0, 0>>, <<>>)>>)}
+            ELSE IF cfg.cap >= 16 /\ Len(o) >= 16 /\ Classes(o) \cap {C_ENC, C_HDCRC} # {}
+            THEN {RxObs(cfg.tr, 0, id, 1, <<>>, <<MetaMessage(cfg.tr, IF c = C_ENC THEN M_HEADERENC ELSE M_HEADERCRC)>>)
+                    : id \in {12, C_ENC, C_HDCRC}, c \in Classes(o) \cap {C_ENC, C_HDCRC}}
             ELSE {<<-9>>}
        ELSE UNION {
               LET f == Fields(o)
